@@ -45,9 +45,9 @@ def select(cases, ctx):
     """quick: per (family, role, presentation) k denied cases, per (family, role) a few allowed ones
     (one per distinct reason); thorough: the same with larger k."""
     rnd = random.Random(ctx.seed)
-    kd = ctx.pick(1, 7)
-    ka = ctx.pick(2, 6)
-    ka_eff = ctx.pick(1, 3)
+    kd = ctx.pick(1, 12)
+    ka = ctx.pick(2, 8)
+    ka_eff = ctx.pick(1, 5)
     groups = collections.defaultdict(list)
     for c in cases:
         groups[(c["f"], c["role"], c["auth"], c["pres"] if not c["auth"] else "")].append(c)
@@ -63,6 +63,7 @@ def select(cases, ctx):
             if c["pres"] == "right":
                 return "user:" + ("all" if "all" in c["U"] and not (req & set(c["U"])) else "perm" if req & set(c["U"]) else "star")
             return "star:" + ("all" if "all" in c["S"] and not (req & set(c["S"])) else "perm")
+        g.sort(key=lambda c: len(c["U"]) + len(c["S"]))      # minimal stores first: one grant, one source
         seen, picked = set(), []
         for c in g:
             r = reason(c)
